@@ -34,6 +34,7 @@ fixed = [
  ("F31", "C03", "9408e10", "mark(leaf).without_duplicates(preferred_engine=sql) with a user-defined MarkerRelation subclass: NotImplementedError from backtrack_unary instead of falling back to root application"),
  ("F32", "C20", "1fac018", "sql_rel.join(it_rel_holding_a_user_defined_RowFilter) with no transfer allowed: the foreign operand was conformed before the engine check; NotImplementedError instead of EngineError"),
  ("F33", "C18", "c284e2b", "UserRowFilter applied to leaf.without_duplicates() in an iteration engine: execute() evaluated the target, then apply_custom_unary_operation() evaluated it again - the deduplication consumed the leaf twice in one execute()"),
+ ("F34", "C17", "1a0aad5", "conform() of the hand-built tree Projection(all columns) over S.sorted([d]).with_only_columns({a}).without_duplicates(): RelationalAlgebraError 'will not preserve row order' for a projection that removes nothing, while the factories accept the same operation sequence (follow-up of the F7 repair)"),
  ("F27", "C08", "149b8d5", "identity_in_sql.join(rel_in_iteration) accepted: Select marker around an iteration-engine relation; process() AssertionError in Select.reapply; also C20 (engine mismatch not rejected), C14"),
  ("F26", "C14", "8ebe476", "sql_rel.transferred_to(sql) returned a new Select around sql_rel (not the relation itself), burying an un-sliced sort; found through C08 (order-loss error raised only by process())"),
 ]
